@@ -33,10 +33,15 @@ pub fn lib_decode_partitioned(bytes: &[u8], parts: &[usize], scs: &[Option<u32>]
             return Err((e, got));
         }
     }
-    // nothing may be pending
+    // Nothing may be pending: every piece was drained the documented way (empty calls until
+    // None), so a message that only comes out of one more call was withheld behind a None.
+    let before = got.len();
     let r = lib_feed(&mut d, &[], &mut got, |_, _| {});
     if let Err(e) = r {
         return Err((e, got));
+    }
+    if got.len() != before {
+        return Err((format!("{} message(s) delivered only by a further call after get_next_message had returned None with all input given", got.len() - before), got));
     }
     Ok(got)
 }
